@@ -176,6 +176,11 @@ def run_vdyn(groups, tag="vdyn"):
         # a `C` job that panics inside process_grammar leaves its scratch directory behind
         for leftover in glob.glob(os.path.join(WORK, f"c16-{p.pid}-*")):
             shutil.rmtree(leftover, ignore_errors=True)
+        for leftover in glob.glob(os.path.join(WORK, f"pf-{p.pid}-*")):
+            try:
+                os.remove(leftover)
+            except OSError:
+                pass
         lines = open(of).read().splitlines() if os.path.exists(of) else []
         pos = 0
         for i in ids:
